@@ -206,7 +206,7 @@ func runWith(c *mc.Ctx, r *mc.Result, boundName string, always []string) {
 		if !c.Mine(i) || stopped {
 			return
 		}
-		if i&63 == 0 && c.Expired() {
+		if c.ExpiredEvery(64) {
 			stopped = true
 			r.NotExhaustive = append(r.NotExhaustive, fmt.Sprintf("time guard hit at subset #%d", i))
 			return
@@ -284,7 +284,7 @@ func runAfterDelete(c *mc.Ctx, r *mc.Result) {
 				if !c.Mine(n) {
 					continue
 				}
-				if n&63 == 0 && c.Expired() {
+				if c.ExpiredEvery(64) {
 					stopped = true
 					r.NotExhaustive = append(r.NotExhaustive, fmt.Sprintf("time guard hit at case #%d", n))
 					return
